@@ -191,6 +191,15 @@ def run(ctx):
     divisions.run(ctx, 'C01')
     # ---------------- (1) accessors
     rule = 'C01.accessors'
+    def self_path(x):
+        # `self.a.b` (through references): 'a.b'
+        names = []
+        x = strip_refs(x)
+        while x[0] == 'field':
+            names.append(str(x[2]))
+            x = strip_refs(x[1])
+        return '.'.join(reversed(names)) if names and x[0] == 'param' and x[1] == 1 else None
+    upaths = set()
     f = ctx.fn('lib', 'StrategiesInfo::player_utility', rule)
     if f is not None:
         d = {}
@@ -199,14 +208,13 @@ def run(ctx):
             p = e4.try_poly(v)
             if pl and p is not None and len(p) == 1:
                 (mono, c), = p.items()
-                d[pl[-1]['variants'][0]] = c if len(mono) == 1 and mono[0][0] == 'val' and mono[0][1][0] == 'field' and mono[0][1][2] == 'util' else None
-        ctx.verdict(d == {'One': 1.0, 'Two': -1.0}, rule, rule + ':player_utility', 'player one\'s utility is +util and player two\'s is its negation', f.where(0), 'coefficients: %s' % d, breaks='player two\'s reported utility has the wrong sign')
-    util_field = 'util'
-    pu = ctx.fn('lib', 'StrategiesInfo::player_utility', rule)
-    if pu is not None:
-        fl = {x[2] for _, _, v in q.multi_def_values(pu, 0) for x in facts.walk(v) if x[0] == 'field' and strip_refs(x[1])[0] == 'param'}
-        if len(fl) == 1:
-            util_field = next(iter(fl))
+                sp_ = self_path(mono[0][1]) if len(mono) == 1 and mono[0][0] == 'val' else None
+                d[pl[-1]['variants'][0]] = c if sp_ is not None else None
+                if sp_ is not None:
+                    upaths.add(sp_)
+        # one stored value (whichever field path of self holds it: which one is the utility is C01.get-info-wiring), +1 / -1
+        ctx.verdict(d == {'One': 1.0, 'Two': -1.0} and len(upaths) == 1, rule, rule + ':player_utility', 'player one\'s utility is +util and player two\'s is its negation', f.where(0), 'coefficients: %s of self.%s' % (d, ' / self.'.join(sorted(upaths))), breaks='player two\'s reported utility has the wrong sign')
+    util_field = next(iter(upaths)) if len(upaths) == 1 else 'util'
     regret_slots = None      # how the two regrets are stored: ('array', field) or ('fields', {names})
     # player_regret() selecting from the stored pair: by PlayerNum::ind, or by a match on the player number
     pr_sel, pr_field = {}, None
@@ -239,8 +247,8 @@ def run(ctx):
                 regret_slots = ('array', pr_field)
             elif {tuple(sorted(q.tags(a))) for a in args} == {(0,), (1,)} and all(a[0] in ('cidx', 'index') and strip_refs(a[1])[0] == 'field' for a in args) and len({strip_refs(a[1])[2] for a in args}) == 1:
                 regret_slots = ('array', strip_refs(args[0][1])[2])
-            elif all(a[0] == 'field' and strip_refs(a[1])[0] == 'param' for a in args) and len({a[2] for a in args}) == 2 and util_field not in {a[2] for a in args}:
-                regret_slots = ('fields', {a[2] for a in args})
+            elif all(self_path(a) is not None for a in args) and len({self_path(a) for a in args}) == 2 and util_field not in {self_path(a) for a in args}:
+                regret_slots = ('fields', {self_path(a) for a in args})
             ok = regret_slots is not None
         ctx.verdict(ok, rule, rule + ':regret-is-max', 'the total regret is f64::max of the two players\' regrets', f.where(0), 'returns %s' % facts.show(r)[:70], breaks='the total regret is not the larger of the two')
     f = ctx.fn('lib', 'StrategiesInfo::player_regret', rule)
@@ -255,8 +263,8 @@ def run(ctx):
             for bi, cs, v in q.multi_def_values(f, 0):
                 pl = [c for c in cs if c['kind'] == 'variant' and len(c['variants']) == 1 and c['variants'][0] in ('One', 'Two')]
                 v = strip_refs(v)
-                if pl and v[0] == 'field' and strip_refs(v[1])[0] == 'param':
-                    sel[pl[-1]['variants'][0]] = v[2]
+                if pl and self_path(v) is not None:
+                    sel[pl[-1]['variants'][0]] = self_path(v)
             if pr_sel and regret_slots is not None and regret_slots == ('array', pr_field):
                 # a match on the player number over the stored pair: position k is player k+1 (C01.regret-form)
                 good = pr_sel['One'][1] == 0 and pr_sel['Two'][1] == 1
@@ -685,10 +693,19 @@ def run(ctx):
                 for k, s in enumerate(strats[2]):
                     sp = q.find_sub(s, lambda x: q.is_call(x, 'split_by'))
                     if sp is None:
-                        pair = False
+                        # split by some other adaptor (a dedicated chunk iterator): what this rule decides is the pairing —
+                        # everything the k-th argument is computed from belongs to player k
+                        txt_ = facts.show(s)
+                        if 'probs' in txt_ and 'player_infosets' in txt_ and q.tags(s):
+                            pair &= q.tags(s) == {k}
+                        else:
+                            pair = None if pair is not False else False
                         continue
                     pair &= q.tags(sp[2][0]) == {k} and q.tags(sp[2][1]) == {k} and 'probs' in facts.show(sp[2][0]) and 'player_infosets' in facts.show(sp[2][1])
-                ok = good and pair
+                if pair is None and good:
+                    ctx.anchor_lost(rule, 'get_info: how each player\'s probabilities are split by infoset', 'no split_by call and no per-player source recognised')
+                    continue
+                ok = good and bool(pair)
                 detail = 'infoset tables at positions %s; split of player k\'s probabilities by player k\'s infosets: %s' % ([sorted(x) for x in ti], pair)
             ctx.verdict(ok, rule, rule, 'get_info evaluates (tables of player 1, 2) with (probabilities of player 1 split by player 1\'s infosets, same for 2)', host.where(bi), detail, breaks='a player\'s probabilities are interpreted with the other player\'s infoset sizes')
             root_ok = 'root' in facts.show(e[2][0]) and 'chance_infosets' in facts.show(e[2][1])
